@@ -146,7 +146,10 @@ def run_history(kind: str, cap: int, auto_reload: bool, ns_key: bool, ops: list[
                         p = st / op[1]
                         p.parent.mkdir(parents=True, exist_ok=True)
                         p.write_text(_src(op[2]))
-                        os.utime(p, (1_000_000 + ver, 1_000_000 + ver))
+                        # distinct mtimes that move backwards as often as forwards
+                        # (restore from backup, cp -p): freshness is mtime equality
+                        mt = 1_000_000 + (ver if ver % 2 else -ver)
+                        os.utime(p, (mt, mt))
                 ver += 1
                 obs_c = obs_u = ("Q",)
             elif op[0] == "D":
